@@ -21,6 +21,11 @@ pub(crate) struct Http1Codec<IO> {
     transport_stream: IO,
     /// Receives messages from [`StreamSink.download_tx`]
     download_rx: mpsc::Receiver<Bytes>,
+    /// A chunk taken from [`Self::download_rx`] and not yet completely written to the
+    /// transport. It lives here rather than in the future returned by `listen()`, because
+    /// the callers drop that future when their timeout expires: the unwritten rest of
+    /// the chunk must survive that.
+    download_pending: Bytes,
     /// See [`StreamSink.download_tx`]
     download_tx: Option<mpsc::Sender<Bytes>>,
     /// Waits notify from [`StreamSink.download_eof`]
@@ -98,6 +103,7 @@ where
             }),
             transport_stream,
             download_rx,
+            download_pending: Bytes::new(),
             download_tx: Some(download_tx),
             download_eof: Arc::new(Notify::new()),
             upload_rx: Some(upload_rx),
@@ -174,6 +180,22 @@ where
     }
 }
 
+impl<IO> Http1Codec<IO>
+where
+    IO: AsyncWrite + Unpin,
+{
+    /// Write out [`Self::download_pending`]. Cancellation safe: `write_all_buf` advances
+    /// the buffer by exactly what has been written.
+    async fn flush_pending_download(&mut self) -> io::Result<()> {
+        if !self.download_pending.is_empty() {
+            self.transport_stream
+                .write_all_buf(&mut self.download_pending)
+                .await?;
+        }
+        Ok(())
+    }
+}
+
 #[async_trait]
 impl<IO> http_codec::HttpCodec for Http1Codec<IO>
 where
@@ -181,6 +203,8 @@ where
 {
     async fn listen(&mut self) -> io::Result<Option<Box<dyn http_codec::Stream>>> {
         loop {
+            self.flush_pending_download().await?;
+
             let wait_read = async {
                 let mut buffer = self.state.take_buffer();
                 if buffer.is_empty() {
@@ -233,7 +257,8 @@ where
                         }
                         return Err(io::Error::from(ErrorKind::UnexpectedEof));
                     },
-                    Some(mut bytes) => self.transport_stream.write_all_buf(&mut bytes).await?,
+                    // written at the top of the loop
+                    Some(bytes) => self.download_pending = bytes,
                 },
                 _ = self.download_eof.notified() => {
                     self.graceful_shutdown().await?;
@@ -244,8 +269,10 @@ where
     }
 
     async fn graceful_shutdown(&mut self) -> io::Result<()> {
-        if let Ok(mut chunk) = self.download_rx.try_recv() {
-            self.transport_stream.write_all_buf(&mut chunk).await?;
+        self.flush_pending_download().await?;
+        if let Ok(chunk) = self.download_rx.try_recv() {
+            self.download_pending = chunk;
+            self.flush_pending_download().await?;
         }
         self.transport_stream.flush().await?;
         let _ = self.upload_tx.reserve().await;
